@@ -125,7 +125,7 @@ def obligations(tier):
           # passes the prototype count check (the former out-of-bounds read of op_modes[5]; contains well-formed instructions too)
           "jcall-operands-unchecked": ("JCALL", 6, 4, ["H_PROTO=2"], False), "jcall-op-modes-out-of-bounds-read": ("JCALL", 6, 6, ["H_PROTO=0"], True)}
     for kname, (code, kid, n, defs, has_accept) in KF.items():
-        still = kid == 2 or not FIXED_IN_REPO
+        still = not FIXED_IN_REPO
         if still:
             obs.append(insn_ob(tier, "finding." + kname, code, n, n, defs + ["H_KF_ONLY=%d" % kid], what="; ONLY the known-finding form"))
         else:
@@ -181,10 +181,9 @@ META = {
         "operands are accepted; register names of the form t<number> (forbidden by MIR.md) are accepted by MIR_new_func_reg; "
         "a wrong number of ret operands / jret in a function with results / va_start outside a vararg function are reported with "
         "MIR_vararg_func_error (any code is accepted for these)",
-        "the per-opcode obligations EXCLUDE (assume away) exactly one instruction form, the still-open known finding: a va_list operand "
-        "(va_start/va_end op 1, va_arg/va_block_arg op 2) given as memory of undefined type, which MIR.md allows and MIR_finish_func rejects; "
-        "that form is the sole content of the four obligations finding.va_*-undef-mem, which are expected to be violated",
-        "the forms of the findings repaired in /repo (commits d9fc5f08 addr operand, 15c0ce9b jcall modes, 789ebb63 laddr output, ea7651df "
+        "no instruction form is excluded from the per-opcode obligations any more: the last finding (a va_list operand given as memory of "
+        "undefined type, which MIR.md allows, was rejected) was repaired in /repo (6f02dfae); regress.va_*-undef-mem pin that form",
+        "the forms of the findings repaired in /repo (commits 6f02dfae va_list undef-type memory, d9fc5f08 addr operand, 15c0ce9b jcall modes, 789ebb63 laddr output, ea7651df "
         "prototype/block callee) are no longer excluded; each is additionally the sole content of an obligation regress.* that must hold "
         "(FIXED_IN_REPO = False in props/C15.py restores the exclusion and the finding.* obligations for an unrepaired tree)",
         "a nondeterministic read caused by CBMC's handling of item->u.proto->field on small objects would over-approximate (spurious "
